@@ -88,6 +88,17 @@ func (r *Reader) init(zr *zip.Reader) error {
 	r.pkg = pkg
 	r.baseDir = baseDir
 
+	// Second part of the DRM check: a content document is what the package says
+	// it is (a spine item), whatever its file suffix
+	if encrypted := encryptedResources(zr); len(encrypted) > 0 {
+		for _, spineItem := range r.pkg.Spine {
+			item, ok := r.pkg.Manifest[spineItem.IDRef]
+			if ok && encrypted[path.Clean(r.resolveHref(item.Href))] {
+				return ErrDRMProtected
+			}
+		}
+	}
+
 	// Load chapters
 	if err := r.loadChapters(zr); err != nil {
 		return err
